@@ -68,3 +68,42 @@ func c04MultiFile(meta *Meta) {
 		}
 	}
 }
+
+// examples under format: date (Go side): the loader rewrites the YAML rendering of a plain date
+// (2019-09-12T00:00:00Z) back into the date; nothing else is a date, and with formats checked an
+// example that is a date-time is rejected wherever the schema sits
+func c04DateExamples(meta *Meta) {
+	for _, pos := range []string{"component", "property", "parameter"} {
+		for ex, want := range map[string]bool{"2019-09-12": true, "2019-09-12T00:00:00Z": true, "2019-09-12T10:30:00Z": false, "2019-09-12T00:00:00+02:00": false, "2019-09-12Tuesday": false, "12 Sept": false} {
+			day := `{"type":"string","format":"date","example":"` + ex + `"}`
+			schemas, params := `"Day":{"type":"string"}`, `[]`
+			switch pos {
+			case "component":
+				schemas = `"Day":` + day
+			case "property":
+				schemas = `"Day":{"type":"object","properties":{"d":` + day + `}}`
+			default:
+				params = `[{"name":"d","in":"query","schema":` + day + `}]`
+			}
+			text := `{"openapi":"3.0.3","info":{"title":"t","version":"1"},"paths":{"/p":{"get":{"parameters":` + params + `,"responses":{"200":{"description":"ok"}}}}},"components":{"schemas":{` + schemas + `}}}`
+			desc := map[string]any{"position": pos, "example": ex}
+			meta.Histogram["date examples"]++
+			var verr error
+			var err error
+			if p := catchPanic(func() {
+				var doc *openapi3.T
+				if doc, err = openapi3.NewLoader().LoadFromData([]byte(text)); err == nil {
+					verr = doc.Validate(context.Background(), openapi3.EnableSchemaFormatValidation())
+				}
+			}); p != nil || err != nil {
+				continue
+			}
+			if (verr == nil) != want {
+				sig := "date-example:verdict"
+				meta.Histogram["oracle:"+sig]++
+				meta.GoViolation = append(meta.GoViolation, map[string]any{"signature": sig, "cases": []any{desc}, "go_observation": fmt.Sprint(verr),
+					"judgement": fmt.Sprintf("format: date with the example %q, formats checked: Validate returned %v, expected acceptance=%v", ex, verr, want)})
+			}
+		}
+	}
+}
